@@ -477,6 +477,98 @@ func VerifC04GCInterleavedDelete() {
 	verifReach("end")
 }
 
+// VerifC04DeleteInterleavedGC: the mirror schedule. Delete looks its start and end pointers up, releases the
+// index lock while the offset resolvers run (file reads in the unary layer) and only then takes the write lock.
+// A whole garbage-collection pass that completes inside that window — here: when the start or the end resolver
+// is called — moves the bytes of the very pointers the delete is about to split. Both operations succeed and a
+// scan, in memory and after reopening, returns exactly what the two deletes left.
+func VerifC04DeleteInterleavedGC() {
+	n := verifLen("n", 2, verifParam("n", 3))
+	specs := make([]VerifDomainSpec, n)
+	for i := range specs {
+		d := []byte{byte(16*(i+1) + 0), byte(16*(i+1) + 1), byte(16*(i+1) + 2)}
+		specs[i] = VerifDomainSpec{Start: telem.TimeStamp(100 * (i + 1)), End: telem.TimeStamp(100*(i+1) + 30), Data: d}
+	}
+	mem := xfs.NewMem()
+	db := verifBuildRealDBCfg(Config{FS: mem, FileSize: 7, GCThreshold: 0.2}, specs, nil)
+	ctx := context.Background()
+	type cut struct{ dom, from, to int }
+	pick := func(label string) cut {
+		c := cut{dom: verifLen(label+".domain", 0, n-1), from: verifLen(label+".from", 0, 2)}
+		c.to = verifLen(label+".to", c.from+1, 3)
+		return c
+	}
+	res := func(_ context.Context, domainStart telem.TimeStamp, ts telem.TimeStamp) (telem.Size, telem.TimeStamp, error) {
+		return telem.Size((ts - domainStart) / 10), ts, nil
+	}
+	rangeOf := func(c cut) telem.TimeRange {
+		base := telem.TimeStamp(100 * (c.dom + 1))
+		return telem.TimeRange{Start: base + telem.TimeStamp(10*c.from), End: base + telem.TimeStamp(10*c.to)}
+	}
+	first, second := pick("first"), pick("second")
+	verifAssert("first-delete-ok", db.Delete(ctx, rangeOf(first), res, res) == nil)
+	atEnd := verifBool("gc-at-end-resolver")
+	fired := false
+	var gcErr error
+	withGC := func(_ context.Context, domainStart telem.TimeStamp, ts telem.TimeStamp) (telem.Size, telem.TimeStamp, error) {
+		if !fired {
+			fired = true
+			gcErr = db.GarbageCollect(ctx)
+		}
+		return telem.Size((ts - domainStart) / 10), ts, nil
+	}
+	var derr error
+	if atEnd {
+		derr = db.Delete(ctx, rangeOf(second), res, withGC)
+	} else {
+		derr = db.Delete(ctx, rangeOf(second), withGC, res)
+	}
+	verifAssert("delete-with-interleaved-gc-ok", derr == nil)
+	if !fired {
+		return // the second range met no pointer on that side: no resolver call, nothing interleaved
+	}
+	verifReach("gc-ran-inside-delete")
+	verifAssert("interleaved-gc-no-error", gcErr == nil)
+	removed := func(dom, j int) bool {
+		return (first.dom == dom && j >= first.from && j < first.to) || (second.dom == dom && j >= second.from && j < second.to)
+	}
+	var want []byte
+	for i := 0; i < n; i++ {
+		for j := 0; j < 3; j++ {
+			if !removed(i, j) {
+				want = append(want, specs[i].Data[j])
+			}
+		}
+	}
+	flat := func(cs []verifContent) []byte {
+		var out []byte
+		for _, c := range cs {
+			out = append(out, c.data...)
+		}
+		return out
+	}
+	sameBytes := func(a, b []byte) bool {
+		if len(a) != len(b) {
+			return false
+		}
+		same := true
+		for i := range a {
+			if a[i] != b[i] {
+				same = false
+			}
+		}
+		return same
+	}
+	got, ok := verifScan(db)
+	verifAssert("scan-after-delete-ok", ok)
+	verifAssert("content-is-what-both-deletes-left", sameBytes(flat(got), want))
+	ndb := VerifReopen(db, mem)
+	got2, ok2 := verifScan(ndb)
+	verifAssert("scan-after-reopen-ok", ok2)
+	verifAssert("content-after-reopen-is-what-both-deletes-left", sameBytes(flat(got2), want))
+	verifReach("end")
+}
+
 // VerifC04GCInterleavedWriter: after a reopen, a file with free space and a tombstone is both a candidate for
 // garbage collection and available to new writers. A writer that is opened (and may start writing) while
 // GarbageCollect is between its "has this file a writer?" check and the compaction of that file and that
